@@ -26,6 +26,7 @@ RULE = ("case = one word over rows (key in {null,0,1}, x null/non-null) -> frame
         "cumulative/rolling vs pandas at rows holding a value, selection honoured, keys not "
         "aggregated, cumcount, iteration; non-trivial = >= 2 rows")
 ASSUMPTIONS = [
+    'keys also as a callable on the index labels and as a level name given through by= (two-level index); facade head/tail/nth must do what the core engine does for the same call',
     'rolling facade with min_periods given (1, 2), omitted and 0; windows 2 and 3',
     "n <= 3 rows (quick) / 4 (thorough), 2 key labels, 2 value columns",
     "pandas (dropna=True, the default) is the oracle for sum, mean, min, max, count, size, std, var, "
